@@ -9,7 +9,7 @@ CHECKS = {
         category="exploration",
         text="Hypothesis-generated molecules / ensembles (all elements, every enum member, nested attributes incl. bytes, numpy arrays and int keys, NaN/inf "
              "coordinates, 0 atoms, 0 conformers) are stored in fresh MoleculeLibrary / ConformerLibrary files with four buffer sizes and read back in-session, "
-             "in a later session and through a new handle (every read is followed by an in-place edit of the result and a second read of the same key, which must again show what is stored; the Mapping views items() / values() pair every key with its own object); optionally the same objects are then edited in place and stored again under new keys (old keys keep the old state), molecules are also stored as a float32-coordinate subclass, objects may carry a parallel bond, libraries are opened with several `encoding=` values; an independent field-by-field snapshot decides equality at float32 precision. Legacy (v1) files are "
+             "in a later session and through a new handle (every read is followed by an in-place edit of the result and a second read of the same key, which must again show what is stored; the Mapping views items() / values() pair every key with its own object); optionally the same objects are then edited in place and stored again under new keys (old keys keep the old state), molecules are also stored as a float32-coordinate subclass, objects may carry a parallel bond, some of their atoms may also sit in a foreign (live or dead) container, names go in through the setter (also the empty one), libraries are opened with several `encoding=` values; an independent field-by-field snapshot decides equality at float32 precision. Legacy (v1) files are "
              "additionally produced by the harness' own encoder and read through the library. A round-trip oracle over generated inputs is exactly what the "
              "input-quantified statement needs.",
         design_ref="DESIGN.md section 5, C01",
@@ -20,8 +20,8 @@ CHECKS = {
     "C05": dict(
         category="exploration",
         text="Model-based stateful testing: generated edit histories (<=40 ops: add/new/del atom by object, index, label, Element; connect; append_bond(s)/extend_bonds "
-             "with foreign atoms; del_bond; remove_substituent; add_implicit_hydrogens; substructure writes and bond deletion through a view, re-attachment of deleted atoms, atoms stolen from another molecule, parallel and self bonds (also on atoms new to the molecule), in-place charge writes, the source / a fresh clone overwritten in place) are interpreted on Molecule and Structure and on an "
-             "identity-keyed reference model, invariants after every step; plus ALL op sequences up to length 3/4 over a 27-letter alphabet. The statement quantifies "
+             "with foreign atoms; del_bond; remove_substituent; add_implicit_hydrogens; substructure writes and bond deletion through a view, re-attachment of deleted atoms, atoms stolen from another molecule, parallel and self bonds (also on atoms new to the molecule), in-place charge writes, the source / a fresh clone overwritten in place, deletion by negative index, remove_substituent with atoms named as objects / indices / labels, a donor striking a stolen atom off its list) are interpreted on Molecule and Structure and on an "
+             "identity-keyed reference model, invariants after every step; plus ALL op sequences up to length 3/4 over a 28-letter alphabet. The statement quantifies "
              "over histories, which a model-based interpreter explores directly.",
         design_ref="DESIGN.md section 5, C05",
         note="Unique labels for by-label deletion; remove_substituent on bridge bonds only; Conformer edits are C14's.",
@@ -30,7 +30,7 @@ CHECKS = {
     "C06": dict(
         category="exploration",
         text="Generated sources (nested mutable attributes, hydrogen hints, partial charges, 0-3 conformers) realised as each of the seven classes, copied by "
-             "every route (copy constructors same/wider/narrower, pickle, deepcopy, concatenate, |, join at attachment points; sources may carry a second bond on an already bonded pair), then a generated mutation script is run on one side: "
+             "every route (copy constructors same/wider/narrower, pickle, deepcopy, concatenate, |, join at attachment points; sources may carry a second bond on an already bonded pair and attribute values of richer standard types; deep copies also of a container that refers into the object), then a generated mutation script is run on one side: "
              "snapshot of the other side must not change, no ndarray memory and no attribute container is shared (identity walk), the copy equals the source "
              "on the fields of the route, parents and indices are right on both; after an edit of the source a second copy by the same route must show the edited state. join's geometry is C12's.",
         design_ref="DESIGN.md section 5, C06",
@@ -42,7 +42,7 @@ CHECKS = {
         text="Exhaustive vocabulary leg: every Element x AtomType x AtomGeom (44 982 on this tree) as a one-atom molecule and every BondType on a two-atom "
              "molecule is written, must be accepted by the reader with the element recovered, and the second write must reproduce the text. Random leg: generated "
              "Molecule / Structure / Substructure-view / ConformerEnsemble objects round-trip field by field at the written precision through loads / loads_all / load(stream) / "
-             "ConformerEnsemble.loads_mol2, plus the text fixed point, a second write after an in-place edit, and texts beyond 1 MiB / 4 MiB.",
+             "ConformerEnsemble.loads_mol2, plus the text fixed point, a second write after an in-place edit, objects that were themselves read from another program's mol2 flavour (other header types) before their charges were assigned, and texts beyond 1 MiB / 4 MiB.",
         design_ref="DESIGN.md section 5, C07",
         note="Labels whitespace-free; names one stripped line; |x|<1e5; isotopes / formal charges / stereo / attributes are not expressible in mol2 and not compared.",
         technique="round-trip + fixed-point property testing; exhaustive enumeration of the emitted token vocabulary",
@@ -61,7 +61,7 @@ CHECKS = {
         category="exploration",
         text="The configuration matrix {load, loads, load_all, loads_all, dump, dumps} x formats {xyz, mol2, cdxml, obabel-only, nonsense} x source/target kind "
              "{str path, Path, string, open stream} x fmt {explicit, from suffix} x otype {'molecule','ensemble', Structure, Molecule, ConformerEnsemble} x name {given, not} "
-             "x mode {a, w} x writer options {none, write_header, unknown option} x cdxml retrieval key {none, first / last label, unknown label, positional, empty} x stream kind {StringIO, real file, tempfile wrapper, codecs writer, plain object with write()} x path alias {symbolic link, hard link} is enumerated completely on bundled files and sampled on generated single / multi-frame inputs, also with an unclean END of the file (cut inside a later structure, blank lines, a stray line: whatever the class methods make of it, the entry points make the same); a history leg re-uses one path with new contents (load, rewrite, load again). Differential oracle: same type and snapshot as the "
+             "x mode {a, w} x writer options {none, write_header, unknown option} x cdxml retrieval key {none, first / last label, unknown label, positional, empty} x stream kind {StringIO, real file, tempfile wrapper, codecs writer, plain object with write()} x path alias {symbolic link, hard link} x non-regular source path {/dev/fd pipe} is enumerated completely on bundled files and sampled on generated single / multi-frame inputs, also with an unclean END of the file (cut inside a later structure, blank lines, a stray line: whatever the class methods make of it, the entry points make the same); a history leg re-uses one path with new contents (load, rewrite, load again). Differential oracle: same type and snapshot as the "
              "class method (cdxml totals additionally against the sum of the drawn charges / radicals), list where promised, name honoured, text in the caller's stream which stays open, no leaked descriptor, ValueError for unsupported formats.",
         design_ref="DESIGN.md section 5, C09",
         note="openbabel cells cannot run (skipped, counted); cdxml compared on constitution only; loads_all for ensembles has no class-level counterpart.",
@@ -70,7 +70,7 @@ CHECKS = {
     "C10": dict(
         category="fault_enumeration",
         text="Every truncation point (all line boundaries + every byte of the last record) of 10 bundled files and of generated multi-molecule files whose molecules "
-             "differ in atom and bond counts; random line deletions / duplications, token faults that make a token invalid for its field, serial renumbering, single bytes that are no text (file read through the path readers), bond endpoints changed to another valid atom number (counts clause only); plus atheris/libFuzzer "
+             "differ in atom and bond counts (optionally with unimplemented record blocks, or a UNITY_ATOM_ATTR block after the bonds); random line deletions / duplications, token faults that make a token invalid for its field, serial renumbering, single bytes that are no text (file read through the path readers), bond endpoints changed to another valid atom number (counts clause only); plus atheris/libFuzzer "
              "campaigns that decode fuzz bytes into (file, fault sequence incl. arbitrary byte cuts). Oracle: the reader raises, or every returned molecule has the counts of "
              "its own header in the damaged text and the content of the molecule at that position in the undamaged file; a 60 s alarm decides termination.",
         design_ref="DESIGN.md section 5, C10",
@@ -92,7 +92,7 @@ CHECKS = {
         category="exploration",
         text="Constructed 3-D fragments (jittered lattice, random tree + ring closures, attachment point with any bond type, random rigid pose; also exactly parallel / "
              "antiparallel / z-aligned attachment vectors; attachment bonds of independently drawn length) are joined with generated options (dist, optimize_rotation, charge incl. 0 / mult / name / bond overrides) through "
-             "Molecule.join and Structure.join, and iteratively on multi-attachment cores (all or a subset of the attachment points) exactly as molli combine does, with the real "
+             "Molecule.join, Structure.join and a single-precision Molecule subclass (B may be a linker with a second attachment point), and iteratively on multi-attachment cores (all or a subset of the attachment points) exactly as molli combine does, with the real "
              "molli.scripts.combine._ml_assemble compared against the stepwise product (a combination with a defective substituent must yield no product), and end to end through molli.scripts.combine.molli_main on generated core / substituent libraries in every mode (attachment point labels out of atom order) with a structural oracle per product; attachment atoms may sit at index 0 and be untyped terminal atoms. Oracle: atom and bond transfer field by field, new bond "
              "type, proper rigid fit of each fragment (own Kabsch, mirror detected separately), bond length, frame-free bond-direction test from both fragments, charge / "
              "multiplicity, bit-identical coordinates under two np.random states, sources unchanged, nothing shared; a second join after in-place edits of both fragments is judged the same way.",
@@ -105,7 +105,7 @@ CHECKS = {
         text="Every labelled fragment of the 7 bundled .cdxml files (exhaustive) and of generated variants (top-level objects permuted, page translated, ids renumbered, "
              "<n> children permuted, each with its wedge<->hash mirrored twin) is parsed and compared with an independent ElementTree walk of the same file "
              "(attributed-graph isomorphism incl. isotopes, charges, radicals, attachment points, hydrogen hints, bond types, hapto expansion, nested fragments), total charge / "
-             "multiplicity, two parses under different np.random states, the same label asked again after the caller edited the first result, label -> fragment resolution, centre-level handedness inversion under mirroring, and an absolute "
+             "multiplicity, two parses under different np.random states, the same label asked again after the caller edited the first result, label -> fragment resolution, the other labels parsed before and after a request for a deliberately damaged fragment failed, centre-level handedness inversion under mirroring, and an absolute "
              "handedness oracle computed from the drawing alone for unambiguous centres. A third leg writes NEW drawings as minimal CDXML (rings / chains with substituents, every node and bond attribute the parser reads, labels placed under their fragments) "
              "and applies the same oracle; the 3-D clauses only to fragments with a single stereo mark (the quantifier names the bundled files and their variants).",
         design_ref="DESIGN.md section 5, C13",
@@ -115,9 +115,9 @@ CHECKS = {
     ),
     "C14": dict(
         category="exploration",
-        text="Model-based stateful testing: ensembles built through six constructor routes, then generated op lists (append of Molecule / Structure / CartesianGeometry, extend "
+        text="Model-based stateful testing: ensembles built through seven constructor routes, then generated op lists (append of Molecule / Structure / CartesianGeometry, extend "
              "by list / ensemble / iterator, scale, translate 1-D/2-D, rotate by one matrix or by one matrix per conformer, writes through ens[i], five iteration patterns incl. nested / interleaved / zip, slices, "
-             "conformer handles kept and used after later growth, rows addressed by negative index, writes through out-of-range locators (must not land in any existing row), the ensemble's own conformers appended by positive / negative index, rotation stacks of the wrong length, per-conformer dumps read back, serialisation via v2 codec / pickle / library) are interpreted on the ensemble and on three numpy arrays; rectangularity and "
+             "conformer handles kept and used after later growth, rows addressed by negative index, writes through out-of-range locators (must not land in any existing row), the ensemble's own conformers appended by positive / negative index, rotation stacks of the wrong length, per-conformer dumps read back (coordinates, charges, name), serialisation via v2 codec / pickle / library) are interpreted on the ensemble and on three numpy arrays; rectangularity and "
              "view consistency are checked after every step, and every geometry or ensemble that was handed in must stay untouched.",
         design_ref="DESIGN.md section 5, C14",
         note="Appended geometries have the ensemble's atom count; a new conformer's weight may be any real number; ConformerEnsemble(molecule) coordinate values not asserted.",
@@ -160,7 +160,7 @@ CHECKS = {
         text="Generated histories of 2-4 real jobmap runs (every job a _molli_run launch of a /bin/sh script that reads a per-item plan - ok / ok with an empty return file / fail / ok on the n-th attempt / omit "
              "the return file - and bumps a per-item execution counter) over small molecule and conformer libraries, with argument changes (new hash), pre-populated and foreign "
              "destination keys, cache deletion / pollution with another input's output, fresh destinations on an old cache, strict and stdout-only post-processors, strict_hash on / off, log level critical / info / debug, job arguments by keyword or positionally, single and "
-             "vectorised jobs (reduce steps that consume every per-conformer result or only the first). A model of (destination, cache, counters) predicts after every run exactly which units execute and exactly what the destination holds.",
+             "vectorised jobs, jobs declared with job-level envars (reduce steps that consume every per-conformer result or only the first). A model of (destination, cache, counters) predicts after every run exactly which units execute and exactly what the destination holds.",
         design_ref="DESIGN.md section 5, C18",
         note="jobmap_sge (needs qsub) and worker() are not exercised; success = all commands exit 0 and the return file exists.",
         technique="stateful model-based testing of run histories with scripted per-item faults and externally observed execution counters",
@@ -169,7 +169,7 @@ CHECKS = {
         category="exploration",
         text="Five generated-input legs on the shipped extension and the Python descriptors (12 kernel names x float widths x five memory layouts x shapes incl. empty vs. a float64 numpy "
              "reference; rectangular_grid lattice / spacing / containment / centring / count; nearest_atom_index with the cut-off passed, for ensembles and single geometries (2-40 atoms), asked again after the same objects were moved in place; prune bounds likewise; grid dtype option; "
-             "aso / aeif (weighted / unweighted, conformer weights that may be exactly zero, an allocation failure injected into the distance kernel) vs. the van-der-Waals-sphere definition with the float32 rounding band excluded and counted) plus a native leg: molli_xt/distance.cpp of the working tree is "
+             "aso / aeif (weighted / unweighted, conformer weights that may be exactly zero, an allocation failure injected into the distance kernel, ensembles of 70-257 conformers) vs. the van-der-Waals-sphere definition with the float32 rounding band excluded and counted) plus a native leg: molli_xt/distance.cpp of the working tree is "
              "compiled with clang++ under ASan + UBSan + libFuzzer against a header shim standing in for pybind11, and every registered name is fuzzed with the oracle inside the target.",
         design_ref="DESIGN.md section 5, C19",
         note="The shipped .so cannot be rebuilt (pybind11 absent): an edit to the C++ kernels is seen by the native leg only, an edit to pybind11-level dispatch only after a rebuild. "
@@ -190,7 +190,7 @@ CHECKS = {
     "C03": dict(
         category="fault_enumeration",
         text="For each generated (committed records, append session, recovery session) the write stream of the session is recorded and EVERY byte "
-             "prefix of it is materialised as a crash image (exhaustive per session); each image is reopened read-only, reopened for append with "
+             "prefix of it is materialised as a crash image (exhaustive per session); each image is reopened read-only (keys / get and the bulk views items / values), reopened for append with "
              "recovery puts (incl. re-using the torn key; every record is also read inside the recovery session), crashed a second time at every byte of the recovery stream, and taken through the same recovery by ONE long-lived handle / Collection object (re-used across sessions, optionally already used before the crash image appeared). Oracle: committed records exact, "
              "session records all-or-nothing, nothing foreign listed. Fault enumeration over crash points is exactly the property's quantifier.",
         design_ref="DESIGN.md section 5, C03",
@@ -200,9 +200,9 @@ CHECKS = {
     ),
     "C04": dict(
         category="fault_enumeration",
-        text="(a) harness-owned schedules: all sequences of <=2/<=3 sessions over 15 session kinds (a writing session that first reads an existing record among them; 11 failing, faults injected at body (Exception, KeyboardInterrupt, SystemExit) / encoder / flush-time "
-             "backend write / end_write / end_read / begin_write / begin_read) on handles living in three processes, with a lock probe from a fresh process after every session; "
-             "(b) a handle constructor of another process held (harness-owned gate) right before its first lock acquisition while this process creates the library and completes sessions; (c) another process sitting inside a session (gate) while this one asks with timeout 0 / 0.0 / 0.05 / 0.3: TimeoutError, never an entered session - also when the holder unpickles / deep-copies an idle handle of the same library inside its session, or a third process that constructed a handle earlier exits normally meanwhile; (d) handles pickled and unpickled after they were used; (e) real 8-16 process schedules with private scratch directories per process, the processes reaching the library through three spellings of its path (plain, sub/.., symlinked directory), with random delays whose oracle (timestamps taken inside the protected body, hand-over after failing sessions) "
+        text="(a) harness-owned schedules: all sequences of <=2/<=3 sessions over 16 session kinds (a writing session that first reads an existing record among them; 12 failing, faults injected at body (Exception, KeyboardInterrupt, SystemExit) / encoder / flush-time "
+             "backend write / stream write inside UKVFile.put / end_write / end_read / begin_write / begin_read) on handles living in three processes, with a lock probe from a fresh process after every session; "
+             "(b) a handle constructor of another process held (harness-owned gate) right before its first lock acquisition while this process creates the library and completes sessions; (c) another process sitting inside a session (gate) while this one asks with timeout 0 / 0.0 / 0.05 / 0.3: TimeoutError, never an entered session - also when the holder unpickles / deep-copies an idle handle of the same library inside its session, or a third process that constructed a handle earlier exits normally meanwhile, or the holder lets go of another handle whose last request had timed out; (d) handles pickled and unpickled after they were used; (e) real 8-16 process schedules with private scratch directories per process, the processes reaching the library through three spellings of its path (plain, sub/.., symlinked directory), with random delays whose oracle (timestamps taken inside the protected body, hand-over after failing sessions) "
              "cannot misfire on correct locking. Real interleavings are sampled, only session-granular schedules are exhaustive.",
         design_ref="DESIGN.md section 5, C04",
         note="Threads sharing a handle and nested same-process sessions are outside the claim; CLOCK_MONOTONIC is system-wide on Linux; fault injection by "
